@@ -105,6 +105,20 @@ func c02Sequence(c *Ctx, kind string, auto bool, u c02Universe, length int) {
 	var trace []string
 	pickB := func() string { return buckets[c.Rng.Intn(len(buckets))] }
 	pickK := func() string { return u.keys[c.Rng.Intn(len(u.keys))] }
+	// never-written keys that lie BELOW a key of the universe ("x/y" when "x" is an object): only
+	// read and deleted, never written — the reference model answers NoSuchKey / an idempotent delete
+	below := func() string {
+		k := u.keys[c.Rng.Intn(len(u.keys))]
+		return k + []string{"/y", "/y/z", "/"}[c.Rng.Intn(3)] + []string{"", "w"}[c.Rng.Intn(2)]
+	}
+	pickRead := func() string {
+		if c.Rng.Intn(4) == 0 {
+			if k := below(); !strings.HasSuffix(k, "/") {
+				return k
+			}
+		}
+		return pickK()
+	}
 	for i := 0; i < length; i++ {
 		var line, obs, finger string
 		proj := ident
@@ -142,20 +156,20 @@ func c02Sequence(c *Ctx, kind string, auto bool, u c02Universe, length int) {
 			line, obs = r.Put(pickB(), pickK(), md, body)
 			finger = "put"
 		case op < 14:
-			line, obs = r.Get(pickB(), pickK())
+			line, obs = r.Get(pickB(), pickRead())
 			finger = "get"
 		case op < 15:
-			line, obs = r.Head(pickB(), pickK())
+			line, obs = r.Head(pickB(), pickRead())
 			finger = "head"
 		case op < 17:
-			line, obs = r.Del(pickB(), pickK())
+			line, obs = r.Del(pickB(), pickRead())
 			finger = "delete"
 			interesting = true
 		case op < 18:
 			n := c.Rng.Intn(4)
 			var objs []ObjID
 			for j := 0; j < n; j++ {
-				objs = append(objs, ObjID{Key: pickK()})
+				objs = append(objs, ObjID{Key: pickRead()})
 			}
 			line, obs = r.DelMulti(pickB(), objs)
 			finger = "deleteMulti"
